@@ -7,7 +7,8 @@
      header  the header machine, MDepth calls     reg    the registration machine, MRDepth calls *)
 EXTENDS Registries, RegistriesUniverse
 
-CONSTANTS Modes, MDepth, MRDepth, ValueRegs
+CONSTANTS Modes, MDepth, MRDepth, ValueRegs,
+          Slices, Slice                    \* the 65536-value sweeps can be cut into Slices residue classes (one TLC process each)
 VARIABLES mode, x, steps
 mvars == <<flags, ehi, elo, opt, regs, mode, x, steps>>
 
@@ -19,9 +20,9 @@ FieldOk(it) == /\ it[2] + it[3] <= it[1]
 MCInit ==
     /\ mode \in Modes
     /\ \/ mode = "fields" /\ x \in {it \in FieldItems : FieldOk(it)} /\ Idle
-       \/ mode \in {"flags", "ehi"} /\ x \in 0..65535 /\ Idle
+       \/ mode \in {"flags", "ehi"} /\ x \in {v \in 0..65535 : v % Slices = Slice} /\ Idle
        \/ mode = "rcode" /\ x \in 0..4095 /\ Idle
-       \/ mode = "value" /\ \E reg \in ValueRegs : x \in {<<reg, v>> : v \in 0..Max(reg)} /\ Idle
+       \/ mode = "value" /\ \E reg \in ValueRegs : x \in {<<reg, v>> : v \in {w \in 0..Max(reg) : w % Slices = Slice}} /\ Idle
        \/ mode = "text" /\ \E reg \in TextRegs : x \in {<<reg, s>> : s \in LexTexts \cup Words} /\ Idle
        \/ mode = "header" /\ x = 0 /\ flags \in GInitFlags /\ ehi = 0 /\ elo = 0 /\ opt = FALSE /\ regs = <<>> /\ steps = 0
        \/ mode = "reg" /\ x = 0 /\ Idle
@@ -46,6 +47,9 @@ LayoutLaws ==
     /\ FlagNames = <<"QR", "AA", "TC", "RD", "RA", "AD", "CD">> /\ EFlagNames = <<"DO", "CO">>
     /\ \A op \in 0..15 : OpcodeToFlags(op) = op * 2048
 TablesSane == \A reg \in Tabled : TableSane(reg, Table(reg))
+(* constant-level: checked once, as assumptions *)
+ASSUME LayoutLaws
+ASSUME TablesSane
 
 (* ------------------------------------------------------------------ per-mode laws *)
 FieldLaws == mode = "fields" =>
@@ -69,18 +73,20 @@ HdrTok(f) == FlagTokens(Header, FlagNames, FlagsMask, f)
 FlagsLaws == mode = "flags" =>
     LET f == x
         others == 65535 - MaskF(Header, "OPCODE")
+        ht == HdrTok(f)
+        et == FlagTokens(EdnsLo, EFlagNames, EFlagsMask, f)
     IN  /\ OpcodeToFlags(OpcodeFromFlags(f)) = And(f, MaskF(Header, "OPCODE"), 16)
         /\ IsUpdate(f) = (And(f, 30720, 16) = 10240)
-        /\ \A op \in {0, 5, 15, 15 - OpcodeFromFlags(f)} :
+        /\ \A op \in {0, 5, 15 - OpcodeFromFlags(f)} :
              LET g == Put(Header, "OPCODE", f, op)
-             IN  OpcodeFromFlags(g) = op /\ And(g, others, 16) = And(f, others, 16) /\ HdrTok(g) = HdrTok(f) /\ RcodeFromFlags(g, 0) = RcodeFromFlags(f, 0)
-        /\ \A r \in {0, 15, 15 - (f % 16)} :
+             IN  OpcodeFromFlags(g) = op /\ And(g, others, 16) = And(f, others, 16) /\ HdrTok(g) = ht /\ RcodeFromFlags(g, 0) = RcodeFromFlags(f, 0)
+        /\ \A r \in {0, 15 - (f % 16)} :
              LET g == Put(Header, "RCODE", f, r)
-             IN  RcodeFromFlags(g, 0) = r /\ OpcodeFromFlags(g) = OpcodeFromFlags(f) /\ HdrTok(g) = HdrTok(f) /\ And(g, 65520, 16) = And(f, 65520, 16)
-        /\ TokensToMask(Header, FlagNames, FlagsMask, HdrTok(f)) = And(f, FlagsMask, 16)
-        /\ Split(Join(HdrTok(f))) = HdrTok(f) /\ Split("  " \o Join(HdrTok(f)) \o " ") = HdrTok(f)
-        /\ \A k \in 1..Len(HdrTok(f)) : TokenBit(Header, FlagNames, FlagsMask, Lower(HdrTok(f)[k])) = TokenBit(Header, FlagNames, FlagsMask, HdrTok(f)[k])
-        /\ LET et == FlagTokens(EdnsLo, EFlagNames, EFlagsMask, f) IN TokensToMask(EdnsLo, EFlagNames, EFlagsMask, et) = f /\ Split(Join(et)) = et
+             IN  RcodeFromFlags(g, 0) = r /\ OpcodeFromFlags(g) = OpcodeFromFlags(f) /\ HdrTok(g) = ht /\ And(g, 65520, 16) = And(f, 65520, 16)
+        /\ TokensToMask(Header, FlagNames, FlagsMask, ht) = And(f, FlagsMask, 16)
+        /\ Split("  " \o Join(ht) \o " ") = ht
+        /\ \A k \in 1..Len(ht) : TokenBit(Header, FlagNames, FlagsMask, Lower(ht[k])) = TokenBit(Header, FlagNames, FlagsMask, ht[k])
+        /\ TokensToMask(EdnsLo, EFlagNames, EFlagsMask, et) = f /\ Split(Join(et)) = et
         /\ \A h \in {0, 255, 256, 65535} : RcodeToFlags(RcodeFromFlags(f, h)) = <<f % 16, h - (h % 256), 0>>
 RcodeLaws == mode = "rcode" =>
     LET tf == RcodeToFlags(x)
